@@ -295,12 +295,12 @@ structure Gate where
   dead : Bool := false               -- the process died at an armed crash point during the current call
   armed : Option (Nat × Bool) := none  -- crash at the n-th Put of the current call (before it / right after it)
   puts : Nat := 0                    -- Puts attempted during the current call
+  out : List Out := []               -- events posted on the mux during the current call
 
 structure St where
   g : Gate := {}
   v : Voter := {}
   env : Env := {}
-  out : List Out := []               -- events posted during the current call
 
 /-- `db.Put` with the armed crash point -/
 def Gate.put (g : Gate) (k : Kind) (idx : Nat) (c : Ctx) : Gate :=
@@ -314,16 +314,25 @@ def Gate.put (g : Gate) (k : Kind) (idx : Nat) (c : Ctx) : Gate :=
     else { g with p := g.p.put k idx c, puts := n }
   | none => { g with p := g.p.put k idx c, puts := n }
 
-/-- the gate part of `Voter.vote`: `UpdateVoteData` (refusal, or Put + cache update) followed by the post.
+/-- the gate part of `Voter.vote`: `UpdateVoteData` (refusal, or Put + cache update) followed by the post of the
+    SendMessageEvent (between the two the real code only updates its in-memory vote statistics).
     Returns the new gate and whether `UpdateVoteData` returned nil. -/
-def Gate.cast (g : Gate) (k : Kind) (r i h : Nat) : Gate × Bool :=
+def Gate.cast (g : Gate) (k : Kind) (r i h prio w : Nat) : Gate × Bool :=
   if g.c.alreadyVoted k r i then (g, false) else
   let g1 := g.put k (g.c.voteSlot k r i) ⟨r, i⟩
   let g2 := { g1 with c := g.c.afterVote k r i }
   if g2.dead then (g2, true)
-  else ({ g2 with sent := g2.sent ++ [{ kind := k, round := r, index := i, hash := h, persisted := g2.p.has k ⟨r, i⟩ }] }, true)
+  else ({ g2 with sent := g2.sent ++ [{ kind := k, round := r, index := i, hash := h, persisted := g2.p.has k ⟨r, i⟩ }],
+                  out := g2.out ++ [.send k r i h prio w] }, true)
 
-def St.post (s : St) (o : Out) : St := if s.g.dead then s else { s with out := s.out ++ [o] }
+/-- `AsyncPost` of an event -/
+def Gate.post (g : Gate) (o : Out) : Gate := if g.dead then g else { g with out := g.out ++ [o] }
+
+def St.post (s : St) (o : Out) : St := { s with g := s.g.post o }
+
+def Out.isSend : Out → Bool
+  | .send .. => true
+  | _ => false
 
 def Voter.cur? (v : Voter) : Option Wrapper :=
   match v.round with
@@ -347,7 +356,7 @@ def voteCore (s : St) (k : Kind) (h prio : Nat) : St × Option (Nat × Seat) :=
       if k = .next ∧ s.v.nextVoted.isSome ∧ s.g.c.alreadyVoted .next r i then (s, none)   -- "already voted."
       else if k = .cert ∧ s.env.certErr then (s, none)                          -- signVote fails
       else
-        let res := s.g.cast k r i h
+        let res := s.g.cast k r i h prio seat.w
         if !res.2 then ({ s with g := res.1 }, none)
         else
           -- v.votesMgr.newVote(own address 0)
@@ -355,9 +364,7 @@ def voteCore (s : St) (k : Kind) (h prio : Nat) : St × Option (Nat × Seat) :=
             match s.v.wrappers.get? r i with
             | some w => let nv := w.newVote r i k 0 h seat.w seat.vt; (s.v.wrappers.set r i nv.1, nv.2.2)
             | none => (s.v.wrappers, 0)
-          let s1 : St := { s with g := res.1, v := { s.v with wrappers := wc.1 } }
-          -- the post was recorded in the ghost list inside `cast`; mirror it on the call's output
-          (s1.post (.send k r i h prio seat.w), some (wc.2, seat))
+          ({ s with g := res.1, v := { s.v with wrappers := wc.1 } }, some (wc.2, seat))
 
 /-- common prefix of `judgeVoteCount`; `true` = go on to the switch -/
 def judgePre (s : St) (k : Kind) (count q h vt : Nat) : St × Bool :=
@@ -578,7 +585,7 @@ inductive Ev
 
 /-- restart on the same database -/
 def restart (s : St) : St :=
-  { g := { p := s.g.p, c := restore s.g.p, sent := s.g.sent }, v := {}, env := s.env, out := s.out }
+  { g := { p := s.g.p, c := restore s.g.p, sent := s.g.sent, out := s.g.out }, v := {}, env := s.env }
 
 /-- end of a call: forget the crash point; a dead process restarts -/
 def finish (s : St) : St × Bool :=
@@ -590,17 +597,17 @@ inductive Outcome | done (r : Ret) | crashed
 
 def step (s : St) : Ev → St × Outcome
   | .ctx r i st cert =>
-    let res := finish (updateContext { s with out := [], g := { s.g with puts := 0 } } r i st cert)
+    let res := finish (updateContext { s with g := { s.g with puts := 0, out := [] } } r i st cert)
     (res.1, if res.2 then .crashed else .done .nil)
   | .vote m =>
-    let pr := processVoteMsg { s with out := [], g := { s.g with puts := 0 } } m
+    let pr := processVoteMsg { s with g := { s.g with puts := 0, out := [] } } m
     let res := finish pr.1
     if res.2 then (res.1, .crashed)
     else if pr.2 = .panic then (restart res.1, .done .panic)
     else (res.1, .done pr.2)
-  | .crash => (restart { s with out := [] }, .done .nil)
-  | .arm n after => ({ s with out := [], g := { s.g with armed := some (n, after) } }, .done .nil)
-  | .env e => ({ s with out := [], env := e }, .done .nil)
+  | .crash => (restart { s with g := { s.g with out := [] } }, .done .nil)
+  | .arm n after => ({ s with g := { s.g with armed := some (n, after), out := [] } }, .done .nil)
+  | .env e => ({ s with g := { s.g with out := [] }, env := e }, .done .nil)
 
 def run (s : St) (evs : List Ev) : St := evs.foldl (fun s e => (step s e).1) s
 
